@@ -214,7 +214,7 @@ func ruleBlockReadOnlySize(c *Ctx, r *Report, prefix string) {
 		}
 		// an error although the inner read succeeded: one of the `measured > declared` tests must hold
 		exceeded := false
-		for _, g := range guardsOf(fn) {
+		for _, g := range guardsOfX(fn, true) {
 			if g.call != nil {
 				continue
 			}
@@ -227,6 +227,10 @@ func ruleBlockReadOnlySize(c *Ctx, r *Report, prefix string) {
 			// the relation the path established at this comparison (either spelling: `a > b` taken, or
 			// `a <= b` not taken)
 			if taken, known := sp.Took(g.iff, g.site); known {
+				// a conjunct of the condition is known when the condition held, a disjunct when it did not
+				if (g.only == 2 && !taken) || (g.only == 1 && taken) {
+					continue
+				}
 				op := g.op
 				if !taken { // g.op already accounts for a NOT around the condition
 					op = negateOp(op)
